@@ -3,7 +3,7 @@ CONSTANTS
   N = 3
   Shared = {"x"}
   Locals = {}
-  Pairs <- P12
+  Pairs <- P0
   Tcp = TRUE
   MaxAtt = 4
   MaxPer = 2
@@ -12,6 +12,7 @@ CONSTANTS
   Aborts = TRUE
   SendLast = TRUE
   Record = FALSE
+  OnlyBad = FALSE
 INIT Init
 NEXT Next
 INVARIANT Causal
